@@ -126,7 +126,7 @@ LifeInit == TraceInit /\ ro = NoRo /\ retired = "" /\ q = ""
 LifeNext ==
   \/ Base
   \/ ((TrRo \/ TrQCall \/ TrQRet \/ TrDrop \/ TrState \/ TrRecCall \/ TrRecRet
-        \/ TrDeleteCall \/ TrDeleteBe \/ TrDeleteRet \/ TrListing))
+        \/ TrDeleteCall \/ TrDeleteBe \/ TrDeleteRet \/ TrListing) /\ UNCHANGED flt)
 
 LifeSpec == LifeInit /\ [][LifeNext]_ltvars
 
